@@ -22,7 +22,8 @@ Anything outside the grammar raises TranslateError(file, line, construct).
 GRAMMAR
   _make_param_by_strain_key(strain, key)   [@staticmethod]
         if key.is_shear: return strain, key
-        else: i, j, k, l = key.s ; return (VEC, VEC)          (or the two branches swapped under `if not key.is_shear`)
+        else: i, j, k, l = key.s ; return (VEC, VEC)          (or the two branches swapped under `if not key.is_shear`;
+                                                               the else may be dropped after a branch ending in return)
     VEC ::= VEC + VEC | VEC - VEC | VEC * VEC | VEC / VEC | strain[:, IDX] | numpy.sum(strain, axis=1|-1)
           | strain.sum(axis=1|-1) | local                     (all of shape (ntv,); anything else is a broadcasting error)
           locals: `name = VEC` or `a, b = VEC, VEC`, each name assigned once
@@ -107,13 +108,21 @@ def translate_param(cls):
     arg_names(fn, FILE, ["strain", "key"])
     no_reflection(fn, FILE)
     b = body_no_doc(fn)
-    if len(b) != 1 or not isinstance(b[0], ast.If) or not b[0].orelse:
-        bail(b[0] if b else fn, "_make_param_by_strain_key is not a single `if key.is_shear: ... else: ...`")
+    if not b or not isinstance(b[0], ast.If):
+        bail(b[0] if b else fn, "_make_param_by_strain_key does not start with `if key.is_shear:` / `if not key.is_shear:`")
+    if b[0].orelse and len(b) == 1:
+        first, second = b[0].body, b[0].orelse
+    elif not b[0].orelse and len(b) > 1 and b[0].body and isinstance(b[0].body[-1], ast.Return):
+        # dropped else after return: the statements after the `if` are the other branch
+        first, second = b[0].body, b[1:]
+    else:
+        bail(b[0], "_make_param_by_strain_key is not `if key.is_shear: ... else: ...` (or the same with the else dropped "
+                   "after a branch that ends in return)")
     t = src_of(b[0].test)
     if t == "key.is_shear":
-        sh, ns = b[0].body, b[0].orelse
+        sh, ns = first, second
     elif t == "not key.is_shear":
-        ns, sh = b[0].body, b[0].orelse
+        ns, sh = first, second
     else:
         bail(b[0].test, "branch condition `%s` (accepted: key.is_shear / not key.is_shear)" % t[:60])
     if len(sh) != 1 or not isinstance(sh[0], ast.Return) or not isinstance(sh[0].value, ast.Tuple) \
